@@ -40,11 +40,18 @@ def assert_context(chk, ex, pc, r, ctx):
         info = dv(ex.field(rqctx, 'request').v)
         request = r['request']
         def same(a, b): return dv(a) is dv(b)
+        def same_headers(a, b):
+            """the same header lines (every value of every name, in order), whether or not the map object itself was copied"""
+            a, b = dv(a), dv(b)
+            if a is b: return True
+            if not (hasattr(a, 'entries') and hasattr(b, 'entries')) or len(a.entries) != len(b.entries): return False
+            def val(v): return getattr(v, 'content', v)
+            return all(n1 == n2 and (v1 is v2 or val(v1) is val(v2) or (isinstance(val(v1), str) and val(v1) == val(v2))) for (n1, v1), (n2, v2) in zip(a.entries, b.entries))
         checks = {
             'method': same(ex.field(info, 'method').v, request.method),
             'uri': same(ex.field(info, 'uri').v, request.uri),
             'http-version': same(ex.field(info, 'version').v, request.version),
-            'headers': same(ex.field(info, 'headers').v, request.headers),
+            'headers': same_headers(ex.field(info, 'headers').v, request.headers),
             'peer-address': same(ex.field(info, 'remote_addr').v, ctx['remote']),
             'request-id': isinstance(dv(ex.field(rqctx, 'request_id').v), SymStr) and dv(ex.field(rqctx, 'request_id').v).term.eq(ctx['rid'].term),
             'server-state': same(ex.field(rqctx, 'server').v, r['server']),
@@ -70,7 +77,17 @@ def assert_context(chk, ex, pc, r, ctx):
         if m is not None: chk.mismatches.append(f'{tag}: handler {hid} ran for a request it does not match / wrong variables {got}')
     m = chk.prove(f'{tag}/request-context-is-this-requests-own-data', pc, z3.BoolVal(not good or bool(problems)), extra=assume)
     if m is not None:
-        chk.mismatches.append(f'{tag}: request context does not carry the request\'s own data: {problems or calls}')
+        # the same question to a real server: a handler reporting everything its context says about the request
+        raw = ('PUT /ectx/solo0?s=sq0 HTTP/1.1\r\nHost: replay\r\nx-probe: solo-probe-0\r\nx-tag: alpha\r\nX-Tag: beta0\r\nx-other: o\r\nx-tag: gamma\r\nContent-Length: 0\r\n\r\n')
+        case = {'op': 'echo', 'connections': [[{'raw': raw}]]}
+        nat = replay([case])[0]
+        g_ = (nat.get('connections') or [[{}]])[0]
+        g_ = g_[0] if g_ else {}
+        b_ = g_.get('body') or {}
+        native_ok = g_.get('status') == 200 and b_.get('uri') == '/ectx/solo0?s=sq0' and b_.get('method') == 'PUT' and b_.get('probe') == 'solo-probe-0' and b_.get('tags') == ['alpha', 'beta0', 'gamma'] \
+            and b_.get('header_lines') == 7 and b_.get('peer_port') == g_.get('client_port') and g_.get('x_request_id') == [b_.get('request_id')] and b_.get('path_id') == 'solo0'
+        chk.counterexample(f'{tag}: the request context handed to the handler does not carry the request\'s own data ({problems or calls}); a real handler reports {b_}', case, not native_ok,
+                           role='context:' + '+'.join(problems or ['calls']))
 
 
 def part_context(chk, ex, tier):
@@ -158,6 +175,15 @@ def part_from_map(chk, ex):
                         bad.append(z3.BoolVal(True) if not ok_shape else g.payload[1] != z3.Int2BV(ny.val, bits))
             m = chk.prove(f'from_map/{name}/each-field-from-its-own-variable', pc, z3.Or(bad))
             if m is not None and name in c10.SCALAR_SLOT: c10.report_scalar(chk, m, name, ny, f'from_map delivered {got} for a {name} path variable')
+            elif m is not None and name in ('string+u32', 'swapped-decl-order', 'option'):
+                # string path variables with content that a careless conversion would alter (surrounding whitespace, case, empty-looking)
+                from urllib.parse import quote
+                fam = [' x ', '\tx', 'x\n', '.. ', ' .', 'MiXeD', '0x1F', '+1', 'a%b']
+                conns = [[{'raw': f'GET /e/{quote(s_, safe="")}/7 HTTP/1.1\r\nHost: replay\r\n\r\n'}] for s_ in fam]
+                nat = replay([{'op': 'echo', 'connections': conns}])[0]
+                got_n = [((c_[0].get('body') or {}).get('s') if c_ else None) for c_ in nat.get('connections', [])]
+                chk.counterexample(f'from_map ({name}) decoded {got} from {variables}; a real handler receives {got_n} for path segments {fam}', {'op': 'echo', 'connections': conns},
+                                   got_n != fam, role='from_map:' + name)
             elif m is not None: chk.mismatches.append(f'from_map ({name}) decoded {got} from {variables}')
         if not n_ok and name not in ('scalar-for-wildcard', 'seq-for-single'): raise Inconclusive(f'vacuity: from_map never succeeds on {name}; {ex.unsupported_paths[-1:]}')
 
@@ -241,7 +267,7 @@ def witnesses(chk):
     def req(method, target, headers=None, body=b''):
         if isinstance(body, str): body = body.encode()
         h = f'{method} {target} HTTP/1.1\r\nHost: replay\r\n'
-        for k, v in (headers or {}).items(): h += f'{k}: {v}\r\n'
+        for k, v in (headers.items() if isinstance(headers, dict) else (headers or [])): h += f'{k}: {v}\r\n'
         if body or method in ('POST', 'PUT'): h += f'Content-Length: {len(body)}\r\n'
         return {'raw_bytes': list(h.encode() + b'\r\n' + body)}
     def chunked(method, target, headers, parts):
@@ -278,7 +304,8 @@ def witnesses(chk):
     pipe = [req('PUT', f'/ectx/id{i}?s=q{i}', {'x-probe': f'probe-{i}'}) for i in range(6)]
     conns.append(pipe); expect.append(('ctx', 6))
     for i in range(3):
-        conns.append([req('PUT', f'/ectx/solo{i}?s=sq{i}', {'x-probe': f'solo-probe-{i}'})]); expect.append(('ctx-solo', i))
+        # a header field repeated on several lines (RFC 9110 5.3): the handler sees every line, in order
+        conns.append([req('PUT', f'/ectx/solo{i}?s=sq{i}', [('x-probe', f'solo-probe-{i}'), ('x-tag', 'alpha'), ('X-Tag', f'beta{i}'), ('x-other', 'o'), ('x-tag', 'gamma')])]); expect.append(('ctx-solo', i))
     r = replay([{'op': 'echo', 'connections': conns}])[0]
     ids = []
     for (kind, want), conn_req, got in zip(expect, conns, r['connections']):
@@ -298,7 +325,7 @@ def witnesses(chk):
             g = got[0] if got else {}
             b = g.get('body') or {}
             ok = g.get('status') == 200 and b.get('uri') == f'/ectx/solo{want}?s=sq{want}' and b.get('probe') == f'solo-probe-{want}' and b.get('peer_port') == g.get('client_port') \
-                and g.get('x_request_id') == [b.get('request_id')]
+                and g.get('x_request_id') == [b.get('request_id')] and b.get('tags') == ['alpha', f'beta{want}', 'gamma'] and b.get('header_lines') == 7
             ids.append(b.get('request_id'))
         if not ok:
             text = bytes(conn_req[0]['raw_bytes'][:160]).decode('latin1')
